@@ -573,6 +573,61 @@ pub fn run(spec: &Spec) -> Res {
             !drop
         }));
     }
+    // "a key update requested at any moment": in 1/6 of the random runs one side requests it at the earliest possible
+    // moment, right after the datagram that completes its handshake and before anything is sent in reply
+    let eager_ku: Option<usize> = {
+        let mut r2 = Rng::new(seed ^ 0x6b75);
+        if spec.mode == Mode::Random && r2.chance(1, 6) { Some(r2.below(2) as usize) } else { None }
+    };
+    let eager_done = Rc::new(Cell::new(0u32));
+    // key-update ledger of the harness: per node the key phase it last saw and the lowest packet number that can have
+    // been sent in the current phase (None = still the keys of the handshake); `ku_unconfirmed` = one of the harness'
+    // own force_key_update() calls took effect although no packet of the then-current phase had been acknowledged
+    // (RFC 9001 6.1 forbids initiating that update; quinn's API does not refuse it)
+    let ku_phase: Rc<[Cell<bool>; 2]> = Rc::new([Cell::new(false), Cell::new(false)]);
+    let ku_first_pn: Rc<[Cell<Option<u64>>; 2]> = Rc::new([Cell::new(None), Cell::new(None)]);
+    let ku_unconfirmed: Rc<std::cell::RefCell<Option<String>>> = Rc::new(std::cell::RefCell::new(None));
+    // applies a force_key_update() of the harness and keeps the ledger
+    let ku_call = {
+        let (ku_phase, ku_first_pn, ku_unconfirmed) = (ku_phase.clone(), ku_first_pn.clone(), ku_unconfirmed.clone());
+        move |sim: &mut Sim, node: usize, ch: usize| {
+            let before = sim.snap(node, ch);
+            sim.conn(node, ch).force_key_update();
+            let after = sim.snap(node, ch);
+            if after.key_phase != before.key_phase {
+                if let Some(first) = ku_first_pn[node].get() {
+                    let acked = before.spaces[2].largest_acked;
+                    if acked.map_or(true, |a| a < first) && ku_unconfirmed.borrow().is_none() {
+                        *ku_unconfirmed.borrow_mut() = Some(format!("node {node} force_key_update() at t={} took effect although no packet of its current key phase (first packet number {first}) was acknowledged (largest acknowledged {acked:?})", sim.now));
+                    }
+                }
+                ku_phase[node].set(after.key_phase);
+                ku_first_pn[node].set(Some(after.spaces[2].next_pn));
+            }
+        }
+    };
+    {
+        let (eager_done, ku_phase, ku_first_pn) = (eager_done.clone(), ku_phase.clone(), ku_first_pn.clone());
+        let ku_call = ku_call.clone();
+        sim.rx_tap = Some(Box::new(move |sim: &mut Sim, node: usize, ch: usize, _len: usize, post: bool| {
+            if !post || node > 1 {
+                return;
+            }
+            // an update the peer initiated: seen right after the datagram, before anything is sent with the new keys
+            let s = sim.snap(node, ch);
+            if s.key_phase != ku_phase[node].get() {
+                ku_phase[node].set(s.key_phase);
+                ku_first_pn[node].set(Some(s.spaces[2].next_pn));
+            }
+            if eager_ku == Some(node) && eager_done.get() == 0 {
+                let c = sim.conn(node, ch);
+                if !c.is_handshaking() && !c.is_closed() {
+                    ku_call(sim, node, ch);
+                    eager_done.set(1);
+                }
+            }
+        }));
+    }
     let cch = sim.connect(ccfg);
     w.ch[CLIENT] = Some(cch);
     let deadline: u64 = if calm { 40_000_000_000_000 } else { 900_000_000_000 };
@@ -580,13 +635,14 @@ pub fn run(spec: &Spec) -> Res {
     let end;
     let mut next_call = 0usize;
     let mut api_calls = 0u64;
-    let mut api_hist: Vec<(&'static str, u64)> = vec![("recvwin", 0), ("sendwin", 0), ("maxstreams", 0), ("keyupdate", 0), ("keyupdate-before-confirmed", 0), ("ping", 0), ("addrchanged", 0)];
+    let mut api_hist: Vec<(&'static str, u64)> = vec![("recvwin", 0), ("sendwin", 0), ("maxstreams", 0), ("keyupdate", 0), ("keyupdate-before-confirmed", 0), ("ping", 0), ("addrchanged", 0), ("keyupdate-at-completion", 0)];
     let mut dgrams_at_connected = [0u64; 2];
     let mut seen_connected = false;
     let mut quiescent_checks = 0u64;
     let mut wedge_reported = false;
     let mut done_at = 0u64;
     let mut t_exec = 0u64;
+    let mut last_keys: Vec<(bool, u64)> = Vec::new();
     let cfg_lims = lims;
     loop {
         let complete = |sim: &Sim, w: &Workload, held: &Vec<(usize, usize, u64)>| w.complete() && w.ch[SERVER].is_some() && sim.nodes[CLIENT].conns[&cch].obs.connected && held.iter().all(|h| w.sides[h.0].plans[h.1].finish);
@@ -638,12 +694,17 @@ pub fn run(spec: &Spec) -> Res {
             // API calls that are due
             while next_call < sched.len() && (sched[next_call].0 <= sim.steps || idle_now) {
                 let (_, x, call) = sched[next_call].clone();
+                // a call for a connection that does not exist yet (server before accept) waits for it; it is not dropped
+                // (a dropped 0 -> n raise of a stream limit would leave the peer's plans impossible)
+                let Some(ch) = w.ch[x] else { break };
                 next_call += 1;
-                let Some(ch) = w.ch[x] else { continue };
                 if sim.conn(x, ch).is_closed() {
                     continue;
                 }
                 api_calls += 1;
+                if spec.verbose {
+                    eprintln!("API step {} t={} node {x}: {call:?} (confirmed {})", sim.steps, sim.now, sim.nodes[CLIENT].conns[&cch].obs.confirmed);
+                }
                 let confirmed = sim.nodes[CLIENT].conns[&cch].obs.confirmed;
                 match call {
                     Call::RecvWin(v) => {
@@ -667,7 +728,7 @@ pub fn run(spec: &Spec) -> Res {
                         api_hist[2].1 += 1;
                     }
                     Call::KeyUpdate => {
-                        sim.conn(x, ch).force_key_update();
+                        ku_call(sim, x, ch);
                         api_hist[3].1 += 1;
                         if !confirmed && !sim.conn(x, ch).is_handshaking() {
                             api_hist[4].1 += 1;
@@ -686,8 +747,15 @@ pub fn run(spec: &Spec) -> Res {
         };
         t_exec = sim.now;
         let more = sim.step(&mut tick);
+        if spec.verbose {
+            let cur: Vec<(bool, u64, u64)> = (0..2).filter_map(|x| w.ch[x].map(|ch| { let s = sim.snap(x, ch); (s.key_phase, s.authentication_failures, s.total_authed_packets) })).collect();
+            if cur.iter().map(|c| (c.0, c.1)).collect::<Vec<_>>() != last_keys {
+                eprintln!("KEYS step {} t={}: (phase, auth failures, authed) client/server {cur:?} KeyDiscard timers {:?}", sim.steps, t_exec, (0..2).filter_map(|x| w.ch[x].map(|ch| sim.snap(x, ch).timers[3].map(|i| sim.off(i)))).collect::<Vec<_>>());
+                last_keys = cur.iter().map(|c| (c.0, c.1)).collect();
+            }
+        }
         // the wedge oracle: evaluated after everything was serviced at this instant
-        if !wedge_reported && next_call >= sched.len() && globally_quiescent(&sim) {
+        if !wedge_reported && !(next_call < sched.len() && w.ch[sched[next_call].1].is_some()) && globally_quiescent(&sim) {
             quiescent_checks += 1;
             let confirmed = sim.nodes[CLIENT].conns[&cch].obs.confirmed;
             // a limit the scenario itself has set to 0 for good is not an obligation of anybody
@@ -764,10 +832,27 @@ pub fn run(spec: &Spec) -> Res {
         }
         eprintln!("{desc}\nnet {:?} faults {:?}", sim.net, sim.faults);
     }
+    if let Some(e) = api_hist.iter_mut().find(|e| e.0 == "keyupdate-at-completion") {
+        e.1 = eager_done.get() as u64;
+    }
+    // a failure of a run in which the harness itself initiated a key update the RFC forbids, showing the signature of the
+    // resulting key desynchronisation (packets of a peer no longer authenticate, or KEY_UPDATE_ERROR), is the recorded
+    // API finding, not a new violation; everything else keeps its key
+    let mut fails: Vec<String> = sim.fails.drain(..).collect();
+    if let Some(what) = ku_unconfirmed.borrow().clone() {
+        let auth_fail: Vec<u64> = (0..2).filter_map(|x| w.ch[x].map(|ch| sim.snap(x, ch).authentication_failures)).collect();
+        let signature = auth_fail.iter().any(|f| *f > 0) || fails.iter().any(|f| f.contains("KEY_UPDATE_ERROR"));
+        let generic = |f: &String| ["key=connection-lost-under-fair-loss", "key=workload-incomplete", "key=wedge-quiescent-with-obligation", "key=handshake-never-completed"].iter().any(|k| f.starts_with(k));
+        if signature && fails.iter().any(generic) {
+            let first = fails.iter().find(|f| generic(f)).cloned().unwrap_or_default();
+            fails.retain(|f| !generic(f));
+            fails.push(format!("key=key-update-initiated-before-previous-confirmed t={} {what}; authentication failures client/server {auth_fail:?}; outcome: {}", sim.now, first.chars().take(300).collect::<String>()));
+        }
+    }
     let pto0 = |x: usize| 3 * k[x].initial_rtt.as_nanos() as u64;
     let bytes: u64 = w.sides.iter().map(|s| s.recv.values().map(|r| r.bytes).sum::<u64>()).sum();
     Res {
-        fails: sim.fails.drain(..).collect(),
+        fails,
         end,
         done_at,
         connected,
@@ -797,6 +882,13 @@ fn mask_bound(base_ns: u64, k: u32, pto0_ns: u64) -> u64 {
 }
 
 pub fn progress(seed: u64, out: &mut Outcome) {
+    if std::env::var("VERIF_PROGRESS_PROBE").is_ok() {
+        for f in probe_server_update_at_completion(seed) {
+            out.fails.push(format!("key=probe {f} seed={seed}"));
+        }
+        out.runs += 1;
+        return;
+    }
     let verbose = std::env::var("VERIF_SIM_VERBOSE").is_ok();
     // VERIF_PROGRESS_ONLY="<dir>:<mask>" replays a single mask of a mask-mode seed
     let only: Option<(usize, u32)> = std::env::var("VERIF_PROGRESS_ONLY").ok().and_then(|v| {
@@ -896,4 +988,40 @@ pub fn progress(seed: u64, out: &mut Outcome) {
             }
         }
     }
+}
+
+/// Probe (not a registered scenario): the server requests a key update at the very moment its handshake completes
+/// (it is confirmed then, RFC 9001 4.1.2), before it has sent any 1-RTT packet. Returns the failures.
+pub fn probe_server_update_at_completion(seed: u64) -> Vec<String> {
+    let (mut sim, ccfg) = default_pair(seed, TransportConfig::default(), TransportConfig::default());
+    sim.rx_tap = Some(Box::new(|sim: &mut Sim, node: usize, ch: usize, _len: usize, post: bool| {
+        if post && node == SERVER {
+            let c = sim.conn(node, ch);
+            if !c.is_handshaking() && !c.is_closed() {
+                c.force_key_update();
+            }
+        }
+    }));
+    let cch = sim.connect(ccfg);
+    let mut w = Workload::new(seed);
+    w.ch[CLIENT] = Some(cch);
+    w.sides[CLIENT].plans = vec![Plan { dir: Dir::Uni, len: 3000, chunk: 1200, finish: true, reset_at: None }];
+    let end = sim.run_until(60_000_000_000, 10_000, |sim| {
+        if w.ch[SERVER].is_none() {
+            if let Some(&ch) = sim.nodes[SERVER].accepted.first() {
+                w.ch[SERVER] = Some(ch);
+            }
+        }
+        w.tick(sim);
+        w.complete() && w.ch[SERVER].is_some()
+    });
+    let mut f: Vec<String> = sim.fails.drain(..).collect();
+    if std::env::var("VERIF_SIM_VERBOSE").is_ok() {
+        eprintln!("probe: end {end:?} key phase client {} server {:?} server rx stats {:?}", sim.snap(CLIENT, cch).key_phase, w.ch[SERVER].map(|ch| sim.snap(SERVER, ch).key_phase), sim.snap(CLIENT, cch).spaces[2].rx_packet);
+    }
+    let lost_c = sim.nodes[CLIENT].conns[&cch].obs.lost.clone();
+    if !lost_c.is_empty() || end != RunEnd::Done {
+        f.push(format!("end {end:?} client lost {lost_c:?} server lost {:?} key phases c {} s {:?}", w.ch[SERVER].map(|ch| sim.nodes[SERVER].conns[&ch].obs.lost.clone()), sim.snap(CLIENT, cch).key_phase, w.ch[SERVER].map(|ch| sim.snap(SERVER, ch).key_phase)));
+    }
+    f
 }
